@@ -1,7 +1,7 @@
 """C19: late messages: exact retention window and never a wrong sender."""
 from corecheck import run_core
 def run(ctx):
-    return run_core(ctx, "C19", sim_cfgs=["SIM_storage_r1", "SIM_storage_r2", "SIM_ratchet"], mc_quick="MC_storage", mc_thorough="MC_storage_deep",
+    return run_core(ctx, "C19", sim_cfgs=["SIM_storage_r1", "SIM_storage_r2", "SIM_ratchet", "SIM_late"], mc_quick="MC_storage", mc_thorough="MC_storage_deep",
                     harness_flags=[["--single-backend"], ["--single-backend", "--sqlite"]],
                     need_stats=("DeliverApp:ok", "DeliverApp:err:epoch-not-found", "Write:ok"),
                     invariants_note="RetentionExact, FindPrior lookup order (inserts / updates / storage), sender-leaf check (MlsGroup.tla DeliverApp); concrete: a late application message is decrypted exactly when the model says the epoch is retained (retention 1, 2, 3; both providers), stored epoch ids and repository queues equal the model after every step, accepted messages are reported with the true sender")
